@@ -381,7 +381,7 @@ func gov15Case(w *vlog.W, a *wargs, id int, rng *rand.Rand, opts harness.Options
 	objTyp := map[string]string{}
 	steps := 60
 	for s := 0; s < steps; s++ {
-		g.transitionalAdmins() // keeps the record of the admins' last settled status current
+		g.transitionalAdmins()      // keeps the record of the admins' last settled status current
 		events := map[string]bool{} // objects with a governance event in this step
 		var actDesc string
 		x := rng.Intn(100)
